@@ -160,10 +160,16 @@ package annotations
 //@   ensures (result != nil) == reMatches(implementsRegex, commentText)
 //@   ensures result != nil ==> implFields(*result, commentText, typeName, pos)
 //@   ensures result != nil && result.PackageName == "" ==> result.PackageFullPath == currentPkgPath && !result.PackageNotFound
-//@   ensures result != nil && result.PackageName != "" ==> result.PackageNotFound == (forall k int :: 0 <= k && k < len(*imports) ==> impRank((*imports)[k], result.PackageName) == 0)
+// C05, IMPL01 (from the property statement): when the declared names of the imported packages are known, the qualifier is
+// unresolved exactly if no import of the file binds it - under its explicit alias or the imported package's declared name
+//@   ensures result != nil && result.PackageName != "" && namesKnown(*imports) ==> (result.PackageNotFound <==> (forall k int :: 0 <= k && k < len(*imports) ==> !bindsGo((*imports)[k], result.PackageName)))
+//@   ensures result != nil && result.PackageName != "" && namesKnown(*imports) && !result.PackageNotFound ==> (exists k int :: 0 <= k && k < len(*imports) && bindsGo((*imports)[k], result.PackageName) && result.PackageFullPath == (*imports)[k].FullPath)
 //@   ensures result != nil && result.PackageName != "" && result.PackageNotFound ==> result.PackageFullPath == ""
+// (imports whose package name is unknown fall back to the path rules of util.ImportMap.Find)
 //@   ensures result != nil && result.PackageName != "" && !result.PackageNotFound ==> (exists k int :: 0 <= k && k < len(*imports) && impRank((*imports)[k], result.PackageName) != 0 && result.PackageFullPath == (*imports)[k].FullPath)
 //@   assigns nothing
+//@ macro func bindsGo(e util.Import, s string) bool = (e.Alias != "" && e.Alias == s) || e.PackageName == s
+//@ macro func namesKnown(l util.ImportMap) bool = forall k int :: 0 <= k && k < len(l) ==> l[k].PackageName != ""
 //@ macro func implFields(a ImplementsAnnotation, text string, t string, pos token.Pos) bool = a.IsPointer == (reGroup(implementsRegex, text, 1) == "&") && a.PackageName == reGroup(implementsRegex, text, 2) && a.InterfaceName == reGroup(implementsRegex, text, 3) && a.OnType == t && a.OnTypePos == pos
 
 // ---- C15 / C09 / C14: which comment lines are read (attachment) ---------------------------------------------------------
